@@ -31,6 +31,15 @@ def build_od():
     od.add_object(mp)
     var("n", 0x1A00, 0, 0x5, 0, mp)
     var("m1", 0x1A00, 1, 0x7, 0, mp)
+    com = ODRecord("RPDO1 com", 0x1400)
+    od.add_object(com)
+    var("n", 0x1400, 0, 0x5, 2, com)
+    var("cob", 0x1400, 1, 0x7, 0x201, com)
+    var("type", 0x1400, 2, 0x5, 254, com)
+    mp = ODArray("RPDO1 map", 0x1600)
+    od.add_object(mp)
+    var("n", 0x1600, 0, 0x5, 0, mp)
+    var("m1", 0x1600, 1, 0x7, 0, mp)
     return od
 
 
@@ -46,7 +55,9 @@ def run_case(case: dict) -> dict:
     net.add_node(lnode)
     rnode = canopen.RemoteNode(nid + 1, od)
     net.add_node(rnode)
-    pdo = lnode.tpdo[1]
+    # the map whose periodic transmission is driven: any map of any node kind can be started
+    pdo = {"ltpdo": lnode.tpdo, "lrpdo": lnode.rpdo, "rtpdo": rnode.tpdo, "rrpdo": rnode.rpdo}[
+        case.get("pdomap", "ltpdo")][1]
     pdo.cob_id = case.get("pdoid", 0x181)
     pdo.add_variable(0x2000, 0, 16)
     ev = []
